@@ -5,6 +5,7 @@ import (
 	"encoding/json"
 	"flag"
 	"fmt"
+	"go.etcd.io/bbolt"
 	"math/rand"
 	"os"
 	"reflect"
@@ -631,6 +632,7 @@ func replaySQLHist(args []string) error {
 	defer os.RemoveAll(dir)
 	rep := &vx.Report{}
 	unexpectedHangs := 0
+	sawHang := false // a stuck call keeps the driver's mutex: nothing more can be learnt from this process
 	// the two files differ in content: count(a = v1) is 2 in file 1 and 1 in file 2
 	rowsOf := map[int][]vx.Row{1: {{{2, 1}, {3, 1}}, {{2, 1}}}, 2: {{{2, 1}, {3, 1}}, {{2, 2}}, {{2, 2}, {3, 2}}}}
 	wantOf := map[int]string{1: "2", 2: "1"}
@@ -714,6 +716,9 @@ func replaySQLHist(args []string) error {
 					}
 				}
 			}
+			if outcome == "hang" {
+				sawHang = true
+			}
 			if bad != "" {
 				rep.Mismatch(map[string]any{"kind": "sqlhist-" + bad, "steps": ln.Steps[:si+1], "got": outcome})
 				if outcome == "hang" && st.Out != "hang" {
@@ -736,6 +741,40 @@ func replaySQLHist(args []string) error {
 	})
 	if err != nil && err != errStopReplay {
 		return err
+	}
+	// a data source whose file bbolt opens but that is not an index (an empty database, e.g. a placeholder created by a
+	// deployment script): every use fails in an orderly way, again and again, and the file is not kept locked
+	if !sawHang {
+		junk := vx.Join(dir, "placeholder.updog")
+		if jdb, jerr := bbolt.Open(junk, 0644, nil); jerr == nil {
+			jdb.Close()
+			for _, opt := range []string{"", "?preload=true", "?lrucache=true&lrucachesize=4096"} {
+				db, _ := sql.Open("updog", "file:"+junk+opt)
+				for attempt := 1; attempt <= 3; attempt++ {
+					rep.Steps++
+					o, _ := watchdog(15*time.Second, func() error {
+						rows, err := db.Query(text)
+						if err != nil {
+							return err
+						}
+						rows.Close()
+						return nil
+					})
+					if o != "err" {
+						rep.Mismatch(map[string]any{"kind": "sqlhist-not-an-index", "dsn": opt, "attempt": attempt, "got": o, "want": "err"})
+						break
+					}
+				}
+				if o, _ := watchdog(10*time.Second, func() error { return db.Close() }); o == "hang" {
+					rep.Mismatch(map[string]any{"kind": "sqlhist-not-an-index", "dsn": opt, "got": "Close hangs"})
+					break
+				}
+				if !lockFree(junk) {
+					rep.Mismatch(map[string]any{"kind": "sqlhist-not-an-index", "dsn": opt, "got": "file kept locked after the failed uses"})
+					break
+				}
+			}
+		}
 	}
 	rep.Print()
 	return nil
